@@ -165,10 +165,32 @@ def _case(rng, cls, method, n, order):
                 vector_f=bool(cls == 'Jacobian' and rng.random() < 0.6), fseed=int(rng.integers(0, 1000)))
 
 
+def _is_flat(case):
+    # (more often for the complex-step methods: the imaginary part of every value is then exactly zero)
+    return case['fseed'] % 6 == 3 or (case['method'] in ('complex', 'multicomplex') and case['fseed'] % 3 == 0)
+
+
 def make_fun(case):
     """Smooth, defined on both sides of every point, complex- and Bicomplex-capable."""
     cls = case['cls']
     c = 0.1 + 0.05 * (case['fseed'] % 7)
+    flat = _is_flat(case)
+    if flat:
+        # a function that is even about the point of differentiation (or constant): every derivative-carrying part of its
+        # value at the displaced points is exactly zero (the imaginary part of the complex step, the odd differences)
+        x0 = np.array(case['x'], dtype=float).reshape(case['shape']) if case['shape'] else float(case['x'][0])
+        const = case['fseed'] % 12 == 9
+        if cls == 'Derivative':
+            return (lambda x: 0.0 * x + 1.5) if const else (lambda x: (x - x0) * (x - x0) + 1.0)
+
+        def flat_f(x):
+            s = 1.0
+            for k in range(len(case['x'])):
+                s = s + (0.0 * x[k] if const else (x[k] - x0[k]) * (x[k] - x0[k]))
+            return s
+        if cls == 'Jacobian' and case['vector_f']:
+            return lambda x: np.array([flat_f(x), 2.0 * flat_f(x), 0.5 * flat_f(x)])
+        return flat_f
     if cls == 'Derivative':
         return lambda x: np.exp(c * x) + x * x
     dim = len(case['x'])
@@ -189,6 +211,8 @@ def run_case(case, ctx):
     import numdifftools as nd
     cls, method, n, order = case['cls'], case['method'], case['n'], case['order']
     rec = Recorder(make_fun(case))
+    if _is_flat(case):
+        ctx.count('functions_even_about_x_or_constant')
     x = np.array(case['x'], dtype=float).reshape(case['shape']) if case['shape'] else float(case['x'][0])
     kw = dict(method=method)
     if cls == 'Derivative':
